@@ -137,7 +137,7 @@ def run(tier, seed):
         obligations += C.inventory_obligation(with_dtrait=True)
     except C.CheckFailure as pf:
         pending_failure = pf          # look for a concrete failing input first
-    cases = load_corpus("C15") + directed_cases() + [gen_case(rng) for _ in range(130 if tier == "quick" else 900)]
+    cases = load_corpus("C15") + directed_cases() + [gen_case(rng) for _ in range(130 if tier == "quick" else 600)]
     impl, model = D.both(CRATE, cases)
     bad = [i for i, c in enumerate(cases) if proj_kinds(c, impl[i]) != proj_kinds(c, model[i])]
     distinct = {canon(c): c for c in cases}
